@@ -294,17 +294,43 @@ def run(ctx):
     rng = ctx.rng
     D = Devices()
     terms, impls, descs = [], [], []
-    for k in range(ctx.n(600, 6000)):
+    for k in range(ctx.n(400, 6000)):
         t, impl, desc, curs = one_case(ctx, rng, D)
         terms.append(t)
         impls.append(impl)
         descs.append(desc)
-    model = ctx.coq_eval("c29", "Base.QN C29.Model", terms, shard=30)
+    model = ctx.coq_eval("c29", "Base.QN C29.Model", terms, shard=40, timeout=1200)
     for impl, mod, desc in zip(impls, model, descs):
         ctx.corr_checked += 1
         w = compare(impl, mod)
         if w:
             ctx.disagreement("protection_function differs from the model: " + w, desc)
+    for k in range(ctx.n(8, 60)):
+        manual_pickup(ctx, rng, D)
+
+
+def manual_pickup(ctx, rng, D):
+    """the settings given by the user are the settings the protection function uses (pickup_current_manual)"""
+    net = D.net
+    kind = rng.choice(["DTOC", "IDTOC"])
+    vals = {"I_gg": [grid(rng, 1.0, 3.0) for _ in range(6)], "I_g": [grid(rng, 0.2, 0.9) for _ in range(6)],
+            "I_s": [grid(rng, 0.05, 0.19) for _ in range(6)]}
+    man = pd.DataFrame({"switch_id": range(6), **vals})
+    sw = rng.randrange(6)
+    ts = [0.07, 0.5, 0.3] if kind == "DTOC" else [0.07, 0.5, 0.3, 1, 0.5]
+    r = OCRelay(net, switch_index=sw, oc_relay_type=kind, time_settings=ts, pickup_current_manual=man, overwrite=True)
+    case = {"kind": kind, "switch": sw, "manual": {k: v[sw] for k, v in vals.items()}}
+    ctx.case(case, nontrivial=True)
+    ctx.count("manual_pickup_" + kind)
+    if r.I_g != vals["I_g"][sw] or r.I_gg != vals["I_gg"][sw] or (kind == "IDTOC" and r.I_s != vals["I_s"][sw]):
+        ctx.violation("spec", "manual pick-up currents not used: relay has I_g=%r I_gg=%r I_s=%r, given %r" % (r.I_g, r.I_gg, r.I_s, case["manual"]), case)
+        return
+    # a current between I> and I>> must trip with t>, not earlier
+    cur = (vals["I_g"][sw] + vals["I_gg"][sw]) / 2
+    res = call(r, net, sw, cur, "sc", 0.0)
+    if not res["trip_melt"] or res["trip_melt_time_s"] != r.t_g:
+        ctx.violation("spec", "current %r between I>=%r and I>>=%r trips after %r s instead of t>=%r" % (
+            cur, r.I_g, r.I_gg, res["trip_melt_time_s"], r.t_g), case)
 
 
 def replay(ctx, rec):
